@@ -358,6 +358,10 @@ class FloatCode(object):
             self.errors += 1
             return None
 
+    def zen(self, month, day, sec, lat, lon, tz):
+        c = self.cosz(month, day, sec, lat, lon, tz)
+        return None if c is None else self.sc.zenith
+
 
 def grid(tier, sites):
     lats = [-66.0, -45.0, -23.5, 0.0, 23.5, 45.0, 66.0]
@@ -537,6 +541,132 @@ def header_handover(chk):
                'RSM objects, and the real solarangles must use them', mismatches=bad)
 
 
+def live_sun(chk, fc):
+    """The sun position used INSIDE real runs on legal but never-varied rural files.
+
+    The property ties the sun position of every step to latitude / longitude / time zone of the LOCATION line (EPW
+    records are in local STANDARD time). Everything else in the header - a daylight-saving period (given as m/d,
+    wrapping the year end, as day of year or as text), the leap-year flag, holidays, the start week-day, filled
+    soil-property cells, comments - is not an input of the sun position, and neither is an extra day in an
+    8784-row file (365-day clock). Real generate()+simulate() on such files, with `uwg.uwg.SolarCalcs` replaced by a
+    recording subclass: at every call of `solarangles` (month, day, secDay, zenith, RSM.lat/lon/gmt) is logged, and
+    the zenith must be (a) bit-identical to the SAME float routine evaluated stand-alone for the header's
+    lat/lon/zone and the clock's true month/day/second of that step, (b) equal (1e-9 in cos) to the independent
+    transcription of the formula the exact tie has just confirmed (as coded, or NOAA to 2e-4 if repaired)."""
+    import contextlib
+    import io
+    import s1_util as S
+    import simdriver
+    import uwg.uwg as UU
+    from uwg.solarcalcs import SolarCalcs as RealSC
+    rng = chk.rng
+    work = chk.work()
+    thorough = chk.tier == 'thorough'
+    log = []
+
+    class Rec(RealSC):
+        def solarangles(self):
+            RealSC.solarangles(self)
+            log.append((self.simTime.month, int(self.simTime.day), self.simTime.secDay, self.zenith,
+                        self.RSM.lat, self.RSM.lon, self.RSM.gmt))
+
+    # which transcription describes the routine under test (decided on a probe, never a verdict by itself)
+    probe = (6, 15, 36000, 42.37, -71.02, -5.0)
+    c_probe = fc.cosz(*probe)
+    if c_probe is not None and abs(c_probe - ascoded_cosz(*probe)) < 1e-9:
+        ref, tol, refname = ascoded_cosz, 1e-9, 'as-coded transcription'
+    elif c_probe is not None and abs(c_probe - noaa_cosz(*probe)) < 2e-4:
+        ref, tol, refname = noaa_cosz, 2e-4, 'NOAA'
+    else:
+        ref, tol, refname = None, None, 'none (routine matches neither transcription at the probe)'
+
+    boston = simdriver.epw_path('USA_MA_Boston-Logan.Intl.AP.725090_TMY3.epw')
+    sgp = simdriver.epw_path()
+    srcs = {'boston': S.load_epw(boston), 'singapore': S.load_epw(sgp)}
+    # (site, variant, start inside the declared DST period where there is one, dtsim)
+    north_in = [(6, 15), (7, 4), (3, 20), (10, 20), (4, 2)]
+    plan = []
+    for name in S.GROUPS['dst']:
+        start = rng.choice([(1, 15), (12, 5), (11, 2)]) if 'wraps' in name else rng.choice(north_in)
+        plan.append(('boston', name, start, 300))
+    plan.append(('boston', 'actual-year-header', rng.choice(north_in), rng.choice([150, 100, 90])))
+    plan.append(('singapore', 'actual-year-header', rng.choice(north_in), 300))
+    plan.append(('singapore', 'leap8784+dst-3/8-11/1', rng.choice([(3, 1), (6, 21), (2, 28)]), 300))
+    plan.append(('boston', rng.choice(S.GROUPS['weekday']) + '+leapflag-Yes+holidays-listed',
+                 rng.choice([(3, 1), (9, 22)]), 300))
+    plan.append(('boston', 'base', (1, 15) if not thorough else (6, 15), 300))
+    if thorough:
+        for name in S.GROUPS['dst'] + S.GROUPS['ground'] + S.GROUPS['text'] + ['leap8784']:
+            plan.append((rng.choice(['boston', 'singapore']), name,
+                         (rng.randint(1, 12), rng.randint(1, 28)), rng.choice([300, 225, 90, 50])))
+    bad, ncalls, nruns, branches = 0, 0, 0, {}
+    saved = UU.SolarCalcs
+    try:
+        UU.SolarCalcs = Rec
+        for k, (site, name, (mo, dy), dt) in enumerate(plan):
+            rows = S.apply_variant(srcs[site], name)
+            path = S.save_epw(rows, os.path.join(work, 'sun%d.epw' % k))
+            hdr = (float(rows[0][6]), float(rows[0][7]), float(rows[0][8]))
+            del log[:]
+            case = {'site': site, 'epw_variant': name, 'HOLIDAYS/DAYLIGHT SAVINGS': rows[4], 'DATA PERIODS': rows[7],
+                    'month': mo, 'day': dy, 'nday': 1, 'dtsim': dt}
+            try:
+                with contextlib.redirect_stdout(io.StringIO()):
+                    m = simdriver.build_model(mo, dy, 1, dt, epw=path)
+                    m.simulate()
+            except Exception as e:  # noqa: BLE001 - the model's own fail-stop is not a verdict of this property
+                if not log:
+                    chk.notes.append('live sun run %s skipped: %s: %s' % (case, type(e).__name__, str(e)[:80]))
+                    branches['skipped(model raised)'] = branches.get('skipped(model raised)', 0) + 1
+                    continue
+            nruns += 1
+            branches[name.split('-')[0]] = branches.get(name.split('-')[0], 0) + 1
+            t0 = S.doy0(mo, dy) * 86400
+            seen_t = {}
+            for (lmo, ldy, lsec, zen, la, lo, tz) in log:
+                ncalls += 1
+                # the true instant of the call: solarangles runs once per step, in step order, in daylight only;
+                # the clock fields it sees must be a valid instant of the simulated day
+                sec = int(lsec)
+                z_self = fc.zen(lmo, ldy, lsec, *hdr)
+                what = None
+                if (la, lo, tz) != hdr:
+                    what = ('site data in force at the call differ from the LOCATION line', (la, lo, tz), hdr)
+                elif z_self is None or zen != z_self:
+                    what = ('zenith used by the run is not the routine\'s own value for the header site at that instant',
+                            zen, z_self)
+                elif ref is not None and abs(math.cos(zen) - ref(lmo, ldy, lsec, *hdr)) > tol:
+                    what = ('cos(zenith) used by the run vs %s for the header site at that instant' % refname,
+                            math.cos(zen), ref(lmo, ldy, lsec, *hdr))
+                elif (lmo, ldy) not in ((mo, dy), _next_day(mo, dy)) or not (0 <= sec < 86400) or sec % dt:
+                    what = ('clock seen by solarangles is not an instant of the simulated day', (lmo, ldy, lsec),
+                            'a multiple of dtsim within %d/%d' % (mo, dy))
+                if what:
+                    bad += 1
+                    if bad <= 2:
+                        chk.violation('impl-violation', 'sun position inside a real run vs the weather-file header: ' + what[0],
+                                      case=dict(case, clock={'month': lmo, 'day': ldy, 'secDay': lsec},
+                                                header_lat_lon_zone=hdr),
+                                      observed=what[1], expected=what[2],
+                                      how='s1_util.apply_variant(load_epw(<site file>), epw_variant); real generate() + '
+                                          'simulate(); zenith logged at every solarangles call')
+                    break
+    finally:
+        UU.SolarCalcs = saved
+    chk.direct('live-sun(real runs on header / leap-file variants)', ncalls, nruns,
+               'real generate()+simulate() (1 day, dtsim 300/150/100/90) on Boston and Singapore files whose header '
+               'declares a daylight-saving period (m/d, m/d with blanks, wrapping the year end, day-of-year, textual) with '
+               'the simulated day INSIDE the period, an actual-year header, leap flag, holidays, other start week-day, '
+               'an 8784-row file: at every solarangles call of the run the site data in force are the LOCATION '
+               'values, the zenith is bit-identical to the stand-alone routine for (header lat, lon, zone; clock '
+               'month, day, second) and agrees with the %s to %s' % (refname, tol),
+               mismatches=bad, branches=branches)
+
+
+def _next_day(mo, dy):
+    return (mo, dy + 1) if dy < MDAYS[mo - 1] else (mo % 12 + 1, 1)
+
+
 def run(chk):
     chk.proof(MODULE, THEOREMS)
     if chk.tier == 'thorough':
@@ -604,6 +734,7 @@ def run(chk):
     fc = FloatCode()
     npts, differs, unexplained, first_unexpl = float_measure(chk, fc, sites)
     epw_measure(chk, fc)
+    live_sun(chk, fc)
 
     if not bad_impl:
         verdict = 'known-finding'
